@@ -78,7 +78,9 @@ LEVEL_TEXT = ("Both versions are loaded statically by the same session (as `grif
 LEVEL_NOTE = ("trusted: the public-surface model (written from the documented rules: underscore names, __all__, imported "
               "names are private unless exported, modules only by underscore; only paths below pk are public paths of the compared "
               "package) and the loading rule (external=None loads `_pk` for pk, nothing else); a breakage located at the canonical "
-              "definition path of an object that has a public path is accepted as 'on that object'")
+              "definition path of an object that has a public path is accepted as 'on that object' - the definition of the object the "
+              "path led to in the old version or leads to in the new one (Griffe attaches kind / value / base breakages to the new object: "
+              "after an overriding member is removed that is the inherited one)")
 TECHNIQUE = "runtime monitoring: reference-model monitor (public-surface model) over generated two-version histories x loading sessions + CLI exit-code oracle"
 REQUIRED_COUNTERS = ["pairs_diffed", "identical_pairs_silent", "compatible_scripts_silent", "incompatible_public_edits_reported",
                      "incompatible_private_edits_silent", "breakages_explained", "cli_exit_codes_compared",
@@ -409,8 +411,9 @@ def gen_model(rng: random.Random, siblings: bool | None = None, compose: bool | 
             if host == "pk.core" and rng.random() < 0.3:
                 bases.append(base["name"])  # multiple inheritance: a base of the package itself next to the sibling one
             kid = gen_class(fresh("K"), bases)
-            if rng.random() < 0.3 and sc["members"] and kid["members"]:
-                over = copy.deepcopy(rng.choice(sc["members"]))  # overrides an inherited member: the base's one is shadowed
+            overridable = [x for x in sc["members"] if not any(y["name"] == x["name"] for y in kid["members"])]
+            if rng.random() < 0.3 and overridable and kid["members"]:
+                over = copy.deepcopy(rng.choice(overridable))  # overrides an inherited member: the base's one is shadowed
                 over.pop("binds", None)  # (bound once, at class level)
                 kid["members"].append(over)
             hm["objs"].append(kid)
@@ -775,6 +778,30 @@ def class_lookup(model: dict, mod: str, cname: str, loaded: set[str] | None = No
     return None
 
 
+def linearize(model: dict, mod: str, cls: dict, loaded: set[str] | None = None, _seen: tuple = ()) -> list[tuple[str, dict]]:
+    """Python's method resolution order (C3) of the class over the bases that can be resolved among the loaded packages:
+    the order in which a name is looked up, hence which of several same-named members (``__init__``) is inherited."""
+    key = (mod, cls["name"])
+    if key in _seen:
+        return []
+    bases = [r for r in (class_lookup(model, mod, b, loaded) for b in cls["bases"]) if r]
+    seqs = [linearize(model, bm, bc, loaded, (*_seen, key)) for bm, bc in bases] + [list(bases)]
+    seqs = [[x for x in q] for q in seqs if q]
+    out = [(mod, cls)]
+    ident = lambda x: (x[0], x[1]["name"])  # noqa: E731
+    while seqs:
+        for q in seqs:
+            head = q[0]
+            if not any(ident(head) in [ident(y) for y in other[1:]] for other in seqs):
+                break
+        else:
+            head = seqs[0][0]  # inconsistent hierarchy (not generated): fall back to declaration order
+        out.append(head)
+        seqs = [[y for y in q if ident(y) != ident(head)] for q in seqs]
+        seqs = [q for q in seqs if q]
+    return out
+
+
 def public_paths(model: dict, loaded: set[str] | None = None, unknown: dict | None = None) -> dict[str, set[str]]:
     """canonical path of every object (incl. class members) -> set of *public* paths it is reachable by, given the
     top-level packages that are in the collection (None: all of them - what Python itself sees). Public names of pk
@@ -809,13 +836,7 @@ def public_paths(model: dict, loaded: set[str] | None = None, unknown: dict | No
                 continue
             cpaths = top_paths[(mod, o["name"])]
             seen_names = set()
-            chain = [(mod, o)]
-            visited = set()
-            while chain:
-                cmod, cls = chain.pop(0)
-                if (cmod, cls["name"]) in visited:
-                    continue
-                visited.add((cmod, cls["name"]))
+            for cmod, cls in linearize(model, mod, o, loaded):
                 for mem in cls["members"]:
                     canon = f"{cmod}.{cls['name']}.{mem['name']}"
                     out.setdefault(canon, set())
@@ -824,10 +845,6 @@ def public_paths(model: dict, loaded: set[str] | None = None, unknown: dict | No
                     seen_names.add(mem["name"])
                     if not private_name(mem["name"]):
                         out[canon] |= {f"{p}.{mem['name']}" for p in cpaths}
-                for b in cls["bases"]:
-                    r = class_lookup(model, cmod, b, loaded)
-                    if r:
-                        chain.append(r)
     return out
 
 
@@ -1295,11 +1312,11 @@ def expected_differences(old_surface: dict, new_surface: dict) -> list[dict]:
         elif "?" in (od["kind"], nd["kind"]):
             continue  # the target is in a package that is not loaded: only the removal of the name itself can be seen
         elif nd["kind"] != od["kind"]:
-            diffs.append({"path": p, "canonical": od["canonical"], "kind": "Public object points to a different kind of object"})
+            diffs.append({"path": p, "canonical": od["canonical"], "new_canonical": nd["canonical"], "kind": "Public object points to a different kind of object"})
         elif od["kind"] == "attr" and od["value"] != nd["value"]:
-            diffs.append({"path": p, "canonical": od["canonical"], "kind": "Attribute value was changed"})
+            diffs.append({"path": p, "canonical": od["canonical"], "new_canonical": nd["canonical"], "kind": "Attribute value was changed"})
         elif od["kind"] == "class" and od["bases"] != nd["bases"] and len(nd["bases"]) < len(od["bases"]):
-            diffs.append({"path": p, "canonical": od["canonical"], "kind": "Base class was removed"})
+            diffs.append({"path": p, "canonical": od["canonical"], "new_canonical": nd["canonical"], "kind": "Base class was removed"})
     return diffs
 
 
@@ -1374,7 +1391,9 @@ def judge(rec, case: dict, rows: list[dict], info: dict) -> tuple | None:  # noq
     for d in demanded:
         by_obj.setdefault((d["canonical"], d["kind"]), []).append(d)
     for (canonical, kind), ds in by_obj.items():
-        paths = {d["path"] for d in ds} | {canonical}
+        # Griffe locates these breakages at the object the path leads to in the new version: when an own member that overrode
+        # an inherited one is removed (or the other way round), that is the definition of the other object
+        paths = {d["path"] for d in ds} | {canonical} | {d["new_canonical"] for d in ds if d.get("new_canonical")}
         hit = any(r["kind"] == kind and (r["path"] in paths or r["canonical"] in paths) for r in rows)
         behind = all(d["path"] != canonical for d in ds)
         rec.count("incompatible_public_edits_reported" if hit else "incompatible_public_edits_missed")
